@@ -4,7 +4,8 @@ CFG = {
     "count": {"quick": 48000, "thorough": 2400000},
     "lean_files": ["GeoModel/Intersects.lean", "GeoModel/Contains.lean", "GeoModel/Locate.lean", "GeoModel/Segment.lean",
                    "GeoModel/RelateSpec.lean", "GeoModel/Valid.lean", "GeoModel/Gen/Masks.lean", "GeoModel/Gen/Enums.lean",
-                   "GeoModel/Ops/C02.lean", "GeoProofs/Lemmas/SegmentSpec.lean"],
+                   "GeoModel/Ops/C02.lean", "GeoProofs/Lemmas/SegmentSpec.lean", "GeoProofs/Lemmas/RingSpec.lean",
+                   "GeoProofs/Lemmas/LocateLemmas.lean"],
     "rule": "2/3 of the cases: ordered pairs (A, B) over all 10 types (both through the Geometry enum) from one shared grid, B drawn independently or "
             "from A's own vertices / edge midpoints / edges (so containment is frequent): intersects(A,B), intersects(B,A), contains(A,B), is_within(A,B); "
             "1/3: coordinate_position(G, p) with p a vertex, an edge midpoint or a half-grid point. Three-way comparison per case: implementation, "
@@ -23,7 +24,20 @@ MANIFEST = {
             "trait dispatch composes them; the mask predicates are regenerated from intersection_matrix.rs by a translator on every run and the theorems about them "
             "(is_contains = T*****FF*, is_within = T*F**F***, is_intersects = not FF*FF****, within = contains on the transpose, symmetry) are re-checked. Kernel "
             "theorems: point-on-segment and segment-segment intersects are equivalent to the point-set statements; Rect×Rect and Line×Line symmetric; "
-            "within(a,b) = contains(b,a). Each generated case is compared three ways (implementation = model, implementation = specification).",
+            "within(a,b) = contains(b,a). Fast path = specification, proved for all inputs: geo's ring winding loop adds up exactly the increments of the "
+            "specification's winding number (ringWinding_eq, ringPos_eq_spec); coordinate_position = exact point location (locate) for Point, MultiPoint, "
+            "Line, LineString (open or closed, incl. soundness of the bounding-box early return), Rect of positive width and height, Triangle (every vertex "
+            "order, degenerate or not); for Polygon under explicit hypotheses at the query point (closed rings; a point on a hole ring is not outside the "
+            "shell; a point strictly inside a hole is on no hole ring: coordPos_polygon_eq_locate_partial), for MultiPolygon when members agree and no point "
+            "is interior to one member and on the boundary of another, for MultiLineString when the point is an end point of at most one open member "
+            "(coordPos_mls_eq_locate_partial) with the K9 witness proved (coordPos_mls_ne_locate_witness). Masks on the specification: for every geometry A, "
+            "is_contains(relateSpec(A, Point c)) = (locate A c = Inside) and is_intersects(...) = (locate A c != Outside); hence the hand-written "
+            "Contains<Point> bodies of Point, MultiPoint, Line, Rect (non-degenerate), Triangle, Polygon (same hypotheses) and the Intersects<Point> paths of "
+            "Point, MultiPoint, Line, LineString, Rect, Triangle (non-degenerate; witness for the collinear case), Polygon equal the mask on the specification; "
+            "Point.is_within(A) equals its own mask T*F**F*** on the specification whenever A.contains(Point) does. Dispatch: has_disjoint_bboxes is sound for the segment "
+            "kernel (LineString x LineString, LineString x Line), MultiPoint / LineString / MultiPolygon / GeometryCollection clauses are (bbox test and) any "
+            "over members, intersects is symmetric on every primitive pair except Triangle x Triangle and Polygon x Polygon, and for MultiPoint x primitive. "
+            "Each generated case is compared three ways (implementation = model, implementation = specification).",
     "note": "Trusted: Lean kernel + audited axioms; translator; harness (sampling); spec adequacy. Repaired in /repo by this work: Triangle coordinate_position "
             "(29720670), MultiPolygon shared vertex (5f41a6da), MultiPolygon::contains(MultiPoint) (d4024e6e), MultiLineString::contains(Point) (81f1ade9). "
             "Open: K9 coordinate_position(MultiLineString) at an end point shared by an even number of members (an existing unit test pins that behaviour).",
